@@ -39,6 +39,7 @@ type State struct {
 	calls []string // names of the functions called so far on this path
 	defers []deferredCall // deferred calls registered on this path (innermost frame last)
 	skw   map[string]string // last Skolem function of each witness-mode exists (by source position)
+	alias        map[types.Object]sliceAlias // local slices sharing a backing array with a heap field
 	pendingHavoc map[string]bool // field names written by an enclosing/preceding loop whose heap map was not touched yet
 }
 
@@ -69,6 +70,12 @@ func (s *State) clone() *State {
 		n.skw = make(map[string]string, len(s.skw))
 		for k, v := range s.skw {
 			n.skw[k] = v
+		}
+	}
+	if len(s.alias) > 0 {
+		n.alias = make(map[types.Object]sliceAlias, len(s.alias))
+		for k, v := range s.alias {
+			n.alias[k] = v
 		}
 	}
 	if len(s.pendingHavoc) > 0 {
